@@ -351,7 +351,8 @@ def root_class(e):
 QUERIES = [("rebuild",), ("repr",), ("evaluate_kernel",), ("clone",), ("detach",), ("cpu",), ("double",), ("float",),
            ("type", "F32"), ("type", "F64"), ("to", "pos", "F32"), ("to", "pos", "F64"), ("to", "kw", "F32"),
            ("to", "kw", "F64"), ("to", "tensor", "F64"), ("to", "tensor", "F32"), ("to", "devdt", "F64"),
-           ("to", "dev", None), ("to", "conflict", None), ("dtype",), ("returned",)]
+           ("to", "dev", None), ("to", "conflict", None), ("dtype",), ("returned",), ("to", "dtdev", "F64"), ("to", "dtdev", "F32"),
+           ("rgset", "on"), ("rgset", "onoff")]
 
 
 def family(q):
@@ -386,6 +387,9 @@ def apply_query(o, q):
         return getattr(o, q[0])()
     if q[0] == "type":
         return o.type(NDT[q[1]])
+    if q[0] == "rgset":
+        r = o.requires_grad_(True)
+        return r.requires_grad_(False) if q[1] == "onoff" else r
     if q[0] == "to":
         kind = q[1]
         if kind == "pos":
@@ -396,6 +400,8 @@ def apply_query(o, q):
             return o.to(torch.zeros(1, dtype=NDT[q[2]]))
         if kind == "devdt":
             return o.to(torch.device("cpu"), NDT[q[2]])
+        if kind == "dtdev":
+            return o.to(NDT[q[2]], torch.device("cpu"))
         if kind == "dev":
             return o.to(torch.device("cpu"))
         if kind == "conflict":
@@ -429,6 +435,8 @@ def query_lit(q, oin, obs_extra=None):
             return "QTo [TATensor %s 0] None None %s" % (q[2], o)
         if kind == "devdt":
             return "QTo [TADevice 0; TADtype %s] None None %s" % (q[2], o)
+        if kind == "dtdev":
+            return "QTo [TADtype %s; TADevice 0] None None %s" % (q[2], o)
         if kind == "dev":
             return "QTo [TADevice 0] None None %s" % o
         if kind == "conflict":
@@ -447,6 +455,17 @@ def float_leaf_tensors(o, out=None):
                 out.append(a)
         elif isinstance(a, LinearOperator):
             float_leaf_tensors(a, out)
+    return out
+
+
+def all_leaf_tensors(o, out=None):
+    from linear_operator.operators import LinearOperator
+    out = [] if out is None else out
+    for a in itertools.chain(o._args, o._kwargs.values()):
+        if torch.is_tensor(a):
+            out.append(a)
+        elif isinstance(a, LinearOperator):
+            all_leaf_tensors(a, out)
     return out
 
 
@@ -576,6 +595,22 @@ def direct_check(case, o, res, exc, meta, heavy=True):
     if q[0] == "returned":
         if o.dtype is not None:
             fails += returned_dtype_failures(o, NDT[src] if has_float else o.dtype, "original")
+        return fails
+    if q[0] == "rgset":
+        # op.requires_grad_(val) (in place, returns the operator): exactly the floating tensors get the flag, integer /
+        # boolean index data are never touched, nothing else changes
+        if exc is not None:
+            return [{"fail": "raises:" + exc.split(":")[0], "exc": exc}]
+        want = q[1] == "on"
+        ts = all_leaf_tensors(o)
+        badf = [str(t.dtype) for t in ts if t.dtype.is_floating_point and bool(t.requires_grad) != want]
+        badi = [str(t.dtype) for t in ts if not t.dtype.is_floating_point and t.requires_grad]
+        if badf:
+            fails.append({"fail": "requires_grad", "got": "%d floating tensor(s) with requires_grad=%s" % (len(badf), not want), "want": want})
+        if badi:
+            fails.append({"fail": "requires_grad", "got": "integer/boolean tensor requires grad: %s" % badi[0], "want": False})
+        if any(t.dtype.is_floating_point for t in ts) and bool(o.requires_grad) != want:
+            fails.append({"fail": "requires_grad", "got": bool(o.requires_grad), "want": want, "what": "operator.requires_grad"})
         return fails
     if q[0] == "repr":
         if has_other:
@@ -719,7 +754,7 @@ def run_case(meta, e, src, defdt, rg, q, heavy=True, defdt0=None, mixed=False):
         fl = float_leaf_tensors(o)
         c.incons = bool(c.dt0 is not None and any(t.dtype != c.dt0 for t in fl))
         c.d_in, c.d_in_exc = None, None
-        if q[0] not in ("repr", "dtype", "returned"):
+        if q[0] not in ("repr", "dtype", "returned", "rgset"):
             try:
                 c.d_in = o.to_dense().detach().clone()
             except Exception as ex:
@@ -738,7 +773,7 @@ def run_case(meta, e, src, defdt, rg, q, heavy=True, defdt0=None, mixed=False):
         except Exception as ex:
             c.exc = "%s: %s" % (type(ex).__name__, str(ex)[:120])
         from linear_operator.operators import LinearOperator
-        if c.exc is None and isinstance(res, LinearOperator):
+        if c.exc is None and isinstance(res, LinearOperator) and q[0] != "rgset":
             try:
                 c.obs = ab.op(res)
             except Unabstractable as ex:
@@ -749,7 +784,9 @@ def run_case(meta, e, src, defdt, rg, q, heavy=True, defdt0=None, mixed=False):
         # source integrity: the original must be exactly what it was; the result must be a new object unless nothing
         # had to change
         integ = sq.diff_snapshot(c.snap0, sq.snapshot(o))
-        if c.exc is None and q[0] not in ("repr", "dtype", "returned"):
+        if q[0] == "rgset":
+            integ = [f for f in integ if f["fail"] != "source-changed:tensor-requires_grad"]
+        if c.exc is None and q[0] not in ("repr", "dtype", "returned", "rgset"):
             integ = sq.alias_failures(o, res, c.snap0, q, target_dtype(q, src)) + integ
         if integ:
             c.fails = sorted(c.fails + integ, key=fail_rank)
@@ -772,7 +809,7 @@ def case_lit(c):
 
 def in_model(c):
     """cases compared with the Coq model"""
-    if not c.ok_abs or c.q[0] == "returned":
+    if not c.ok_abs or c.q[0] in ("returned", "rgset"):
         return False
     if c.q[0] == "evaluate_kernel" and c.oin[1] in ("CAddedDiag", "CKronAddedDiag", "CLowRankRootAddedDiag"):
         return False            # goes through __add__ (C02); only the direct predicates apply
@@ -1028,7 +1065,7 @@ def shrink(meta, c, f, budget=40):
         found = None
         qs = [cur_q]
         tgt = target_dtype(cur_q, c.src)
-        if cur_q[0] in ("double", "float", "type") or (cur_q[0] == "to" and cur_q[1] in ("kw", "tensor", "devdt")):
+        if cur_q[0] in ("double", "float", "type") or (cur_q[0] == "to" and cur_q[1] in ("kw", "tensor", "devdt", "dtdev")):
             qs.append(("to", "pos", tgt))
         if cur_q[0] in ("evaluate_kernel", "cpu"):
             qs.append(("rebuild",) if cur_q[0] == "evaluate_kernel" else ("clone",))
@@ -1141,6 +1178,8 @@ def execute(ctx, meta, cells, heavy_every=3):
     for i, cell in enumerate(cells):
         name, e, src, defdt, rg, q = cell[:6]
         opts = cell[6] if len(cell) > 6 else {}
+        if q is not None and q[0] == "rgset":
+            rg = "none"                 # requires_grad_() is exercised on operators over fresh leaf tensors
         if e is None:
             skipped.append(name)
             continue
@@ -1263,7 +1302,7 @@ def run(ctx):
     # coverage
     def ntkey(c):
         return (describe(c.e), c.src, c.defdt, family(c.q))
-    nontrivial = {ntkey(c) for c in cases if c.q[0] not in ("dtype", "repr", "returned")
+    nontrivial = {ntkey(c) for c in cases if c.q[0] not in ("dtype", "repr", "returned", "rgset")
                   and (c.src != c.defdt or len(all_subs(c.e)) > 1)}
     dist = {}
     for c in cases:
